@@ -790,10 +790,13 @@ impl QueryHashCache {
         // Hash embedding dimension first
         embedding.len().hash(&mut hasher);
 
-        // Quantize floats to 16-bit for stable hashing
-        // This prevents hash drift from floating-point precision differences
+        // Quantize floats to 1/32768 steps for stable hashing
+        // This prevents hash drift from floating-point precision differences.
+        // The quantized value must be wide: an `as i16` cast saturates, so every component
+        // >= 1.0 (or < -1.0), as is normal for un-normalized Euclidean data, hashed alike and
+        // different queries were served each other's cached results as "exact" hits.
         for &val in embedding {
-            let quantized = (val * 32768.0).round() as i16;
+            let quantized = (val * 32768.0).round() as i64;
             quantized.hash(&mut hasher);
         }
 
